@@ -295,3 +295,19 @@ def c12(ctx):
     ctx.exhaustive = True
     ctx.assumptions += ["whether bytes are the true MD5/SHA-1/SHA-256/SHA-512 of a stream is ground truth from Go's crypto "
                         "packages, logged as the fact sum_is / hash_is; the specification uses ideal (injective) digests"]
+
+
+# =========================================================================== clearsign (C11)
+@prop("C11", "C11Trace",
+      "TLC model-checks the NewParagraphReader flow over all abstract scenarios (armor at start x block x text changed / "
+      "canon-preserved x signature intact x signer x keyring in {nil, empty, k1, k2, both} x foreign text before/after) "
+      "and generates documents x signing key x keyring x structural mutations (splices before / inside / after, second "
+      "block, dropped signature, relative-position edits); the harness signs with real OpenPGP keys and adds single-byte "
+      "substitution, deletion, insertion and truncation at (stride-sampled / every) byte position of the armored file.")
+def c11(ctx):
+    mc(ctx, "Clearsign.tla", "Clearsign.cfg", what="signer => verified; accepted => verified block only; nothing after the block")
+    g1 = gen(ctx, "ClearsignGen.tla", "ClearsignGen.cfg", ctx.path("cs.ndjson"), what="documents x keys x keyrings x mutations")
+    r = hgen(ctx, "C11", ctx.path("rand.ndjson"))
+    judge(ctx, "C11", vf.cat(ctx.path("vec.ndjson"), g1, r), what="clearsigned input vs ideal-signature rules")
+    ctx.assumptions += ["OpenPGP signing, armor decoding and RFC 4880 canonicalisation by golang.org/x/crypto are ground "
+                        "truth used to CLASSIFY damaged inputs (never to decide acceptance)"]
